@@ -387,9 +387,10 @@ func run(c Scenario) evid.Verdict {
 			return evid.Fail("torn-request:"+p[0], "%s", p[1])
 		}
 	}
+	issued := w.IssuedIndex()
 	for _, r := range results {
 		if (r.op.K == "ticket" || r.op.K == "cached") && r.ok {
-			is, why := w.FindIssued(r.tkt, r.key)
+			is, why := c10.FindIssuedIn(issued, r.tkt, r.key)
 			if why != "" {
 				return evid.Fail("pair-not-issued", "goroutine %d %s(%s): %s", r.g, r.op.K, c.Spec.SPN(r.op.SPN), why)
 			}
